@@ -86,6 +86,7 @@ func (tc *templateChecker) checkTemplate(node ast.Node) {
 	case *ast.ForNode:
 		// the loop variable is bound in the body only: not in the list
 		// expression (evaluated before it exists) and not in {ifempty}
+		tc.checkLoopVar(node.Var)
 		tc.checkTemplate(node.List)
 		tc.forVars = append(tc.forVars, node.Var)
 		tc.checkTemplate(node.Body)
@@ -108,6 +109,14 @@ func (tc *templateChecker) checkTemplate(node ast.Node) {
 func (tc *templateChecker) checkLet(varName string) {
 	if varName == "ij" {
 		panic("Invalid variable name in 'let' command text: '$ij'")
+	}
+}
+
+// checkLoopVar ensures that the loop variable has an allowed name ($ij always
+// reads the injected data, so a loop variable of that name could not be read).
+func (tc *templateChecker) checkLoopVar(varName string) {
+	if varName == "ij" {
+		panic("Invalid variable name in 'foreach' command text: '$ij'")
 	}
 }
 
